@@ -19,6 +19,7 @@ type Pin struct {
 	Keys  map[string][2]uint64 `json:"keys"`
 	Avoid []uint64             `json:"avoid"`
 	Seed  uint64               `json:"seed"` // 0 = leave makeSeed alone
+	All   []uint64             `json:"all"`  // [b, h]: every key collides completely
 }
 
 var curPin *Pin
@@ -37,6 +38,9 @@ func pinHash(name string) (b, h uint64) { return pinHashP(curPin, name) }
 func pinHashP(curPin *Pin, name string) (b, h uint64) {
 	if bh, ok := curPin.Keys[name]; ok {
 		return bh[0], bh[1]
+	}
+	if len(curPin.All) == 2 {
+		return curPin.All[0], curPin.All[1]
 	}
 	x := fnv(name)
 	b = x >> 8 & 0xffffff
